@@ -144,7 +144,11 @@ fn gen(seed: u64, idx: u64, t: Tier) -> J {
 			let fm = *r.pick(&ALL_FMTS);
 			let shape = if fm == Fmt::Msgpack { *r.pick(&gen::SHAPES) } else { *r.pick(&gen::SHAPES[..4]) };
 			let limit = super::c18::limit_of(fm);
-			let yaml_maps = fm == Fmt::Yaml && shape != gen::Shape::Arrays;
+			// Any *text* with deeply nested mappings may reach libyaml (explicit YAML, a
+			// wrong -f, or the YAML trial of detection after JSON's recursion limit
+			// refused it), whose scanner is quadratic in the depth of flow mappings:
+			// keep such shapes at depths that finish within the watchdog.
+			let yaml_maps = fm != Fmt::Msgpack && shape != gen::Shape::Arrays;
 			let d = if fm == Fmt::Msgpack && r.chance(1, 4) {
 				// MessagePack is rejected at its depth limit long before the whole
 				// input is looked at, so far-beyond depths are cheap in every tier.
